@@ -452,7 +452,11 @@ def CmpImpl.render (c : CmpImpl) : List GToks :=
       paren ["&", "self", ",", "__state", ":", "&", "mut", "__H"] +++ brace c.inner)]
   | .eq =>
     [head [],
-     ["const", "_", ":", "(", ")", "="] +++ brace (cmpAllowAttrs +++ "fn" ::: "__check" ::: implG +++
-        paren ("__this" ::: ":" ::: "&" ::: c.thisTy) +++ wheres +++ brace c.inner) +++ [";"]]
+     -- the assertions run in the method of a trait local to the block: inside an impl `Self` exists, so a `key = ..`
+     -- expression means under `Eq` what it means under `PartialEq` (F32; a free function until then)
+     ["const", "_", ":", "(", ")", "="] +++ brace (
+        ["trait", "__Check"] +++ brace (["fn", "__check"] +++ paren ["&", "self"] +++ [";"]) +++
+        cmpAllowAttrs +++ "impl" ::: implG +++ "__Check" ::: "for" ::: c.thisTy +++ wheres +++ brace (
+          ["fn", "__check"] +++ paren ["&", "self"] +++ brace (["let", "__this", "=", "self", ";"] +++ c.inner))) +++ [";"]]
 
 end DX
